@@ -12,7 +12,6 @@ import (
 	"github.com/attestantio/vouch/strategies/attestationdata/best"
 	"github.com/attestantio/vouch/strategies/attestationdata/first"
 	"github.com/attestantio/vouch/strategies/attestationdata/majority"
-	"github.com/rs/zerolog"
 	"pgregory.net/rapid"
 
 	"verifharness/internal/fakes"
